@@ -170,6 +170,12 @@ theorem lock_counts_ok :
     lock_counts = [1, 2, 2, 1, 1, 1, 1, 2, 1, 2, 1, 1, 1, 2] ∧ observer_lock_counts = [1, 1, 1, 1, 1, 1, 1, 1, 1] ∧
     future_drop_lock_counts = [1, 1] ∧ reacquire_after_release_sites = 0 ∧ close_single_guard = 1 := by decide
 
+/-- No function of lib.rs is composed of several lock sections (its own acquisitions plus the lock-taking
+    methods it calls on `self`), except the three timed calls (registration + cancel): each observer is one
+    snapshot of one channel state, each operation one critical section. -/
+theorem single_section_ok :
+    api_lock_totals.all (· == 1) = true ∧ api_lock_totals.length ≥ 27 ∧ api_lock_totals_timed = [2, 2, 2] := by decide
+
 /-- Clone/Drop/clone_* : 12 guarded updates, all `count > 0`; Drop terminates waiters exactly on
     the 1→0 transition with the other side alive; `close` is one guard: test, zero both, terminate, clear. -/
 theorem counts_ok :
@@ -216,6 +222,7 @@ end Kanal.Tie
 #print axioms Kanal.Tie.timed_tests_ok
 #print axioms Kanal.Tie.drain_ok
 #print axioms Kanal.Tie.lock_counts_ok
+#print axioms Kanal.Tie.single_section_ok
 #print axioms Kanal.Tie.counts_ok
 #print axioms Kanal.Tie.list_discipline_ok
 #print axioms Kanal.Tie.variant_good
